@@ -117,7 +117,8 @@ def encode(rng, payload, max_chunks=8, partition=None):
     meta['max_size_line'] = max(meta['max_size_line'], len(out) - line_start)
     meta['last_line_end'] = len(out)
     if rng.random() < 0.3:
-        put(rng.choice([b'X-Trailer: 1\r\n', b'A: b\r\nC: d\r\n']), 'trailer')
+        put(rng.choice([b'X-Trailer: 1\r\n', b'A: b\r\nC: d\r\n', b'Expires: Wed, 21 Oct 2015 07:28:00 GMT\r\n', b'X-Finished-At: 12:30\r\nLink: <http://example.com/next?a=1:2>; rel=next\r\n',
+                        b'X-Empty:\r\n', b'x-lower: caf\xc3\xa9\r\n']), 'trailer')
         meta['trailer'] = True
     put(b'\r', 'fcr')
     put(b'\n', 'flf')
